@@ -609,7 +609,7 @@ def loop_heads(ctx, body, iter_pats):
     return out
 
 
-def per_iteration(ctx, body, iter_pats, spec, rule, what, skip=None, must_dominate=True):
+def per_iteration(ctx, body, iter_pats, spec, rule, what, skip=None, must_dominate=True, nonfirst=None):
     """Within every iteration of the loop over an iterator derived from iter_pats, the
     iteration cannot complete (reach the back edge or an accepting exit) without passing a
     guard for spec."""
@@ -650,6 +650,27 @@ def per_iteration(ctx, body, iter_pats, spec, rule, what, skip=None, must_domina
                     if not direct:
                         keep.append(d)
                 if keep and len(keep) < len(body.out_edges(sb)):
+                    starts = keep
+                    break
+        if nonfirst is not None:
+            # the obligation speaks about every element but the first: the iteration proper starts
+            # on the `index != 0` / `index > 0` edge of the test of the enumeration index against 0
+            region = body.reachable_from([entry], removed_edges={(b, d) for b in back for d in body.succ(b)})
+            for sb in sorted(region):
+                t = body.blocks[sb]["t"]
+                if t["k"] != "switch":
+                    continue
+                ops = nonfirst.find(body.switch_discr_expr(sb), ctx, None)
+                if not ops:
+                    continue
+                keep = []
+                for d, lab in body.out_edges(sb):
+                    truth = edge_truth(t, lab)
+                    if truth is None:
+                        continue
+                    if all((op if truth else mir.NEG[op]) in ("Ne", "Gt") for op in ops):
+                        keep.append(d)
+                if keep:
                     starts = keep
                     break
         g = Guards(ctx, body, targets=list(back) + acc, cut_back_edges=True, start=starts)
@@ -863,6 +884,68 @@ def edge_call_truth(ctx, body, sw, label, call_globs):
         if node[0] == "call" and any(glob(g, node[1]) or glob(g, node[2]) for g in call_globs):
             return truth != neg
     return None
+
+
+_INT_BITS = {"u8": 8, "i8": 8, "u16": 16, "i16": 16, "u32": 32, "i32": 32, "u64": 64, "i64": 64, "usize": 64, "isize": 64, "u128": 128, "i128": 128}
+
+
+def expand_nodes(ctx, e, depth=2, seen=None):
+    """Nodes of expression e and - for calls of workspace-local functions that *return a value* -
+    the nodes of the callee's returned expressions (bounded inlining), so that a conversion
+    hidden in a private helper is seen as part of the caller's expression."""
+    if seen is None:
+        seen = set()
+    for n in mir.walk(e):
+        yield n
+        if depth > 0 and n[0] == "call" and n[1] not in seen and ctx.facts.has(n[1]):
+            seen.add(n[1])
+            cb = ctx.main_body(n[1])
+            if cb is None:
+                continue
+            for x in exit_sites(cb):
+                yield from expand_nodes(ctx, x["expr"], depth - 1, seen)
+
+
+def narrowing_casts(ctx, e, src_pats, below_bits):
+    """Integer casts to a type narrower than below_bits applied to a value that derives from a leaf
+    matching src_pats (e.g. the u32 proof index): such a cast forgets high bits before a comparison."""
+    out = []
+    for n in expand_nodes(ctx, e):
+        if n[0] == "cast" and _INT_BITS.get(str(n[2]), 999) < below_bits:
+            inner = set()
+            for m in expand_nodes(ctx, n[1]):
+                if m[0] == "call":
+                    inner.add("call:" + m[1])
+                    inner.add("call:" + m[2])
+            if any(mir.leaf_match(p, l) for p in src_pats for l in inner):
+                out.append(n)
+    return out
+
+
+def result_ok_edge(ctx, body, sw, label):
+    """True when edge `label` of switch `sw` is taken exactly when the tested Result is Ok, False
+    when it is Err; None if the switch is not such a test. Recognises `r.is_ok()`, `r.is_err()`
+    (with negations) and a match / if-let on the Result's discriminant (Ok = 0, Err = 1)."""
+    t = edge_call_truth(ctx, body, sw, label, ["*Result*::is_ok"])
+    if t is not None:
+        return t
+    t = edge_call_truth(ctx, body, sw, label, ["*Result*::is_err"])
+    if t is not None:
+        return not t
+    term = body.blocks[sw]["t"]
+    e = body.switch_discr_expr(sw)
+    if e[0] != "discr":
+        return None
+    vals = [v for v, _ in term["targets"]]
+    if not set(vals) <= {0, 1}:
+        return None
+    if label == "otherwise":
+        if vals == [0]:
+            return False
+        if vals == [1]:
+            return True
+        return None
+    return label == 0
 
 
 # ---------------------------------------------------------------------------- engine D helpers
